@@ -221,3 +221,37 @@ func NewPPDep(class int, name string, ord int) any {
 	}
 	return &PPDepUnordered{ppCore: c}
 }
+
+// LookupPP is an instantiation-aware post-processor that, for chosen components, resolves a
+// collaborator through the factory (GetComponentByName) from inside its callbacks - before the
+// component's own dependencies are populated - and ignores the result.
+type LookupPP struct {
+	processors.DefaultInstantiationAwareComponentPostProcessor
+	Plan map[string]string // component name -> name to look up
+	When string            // "after-inst" | "properties" | "before"
+	run  *Run
+	done map[string]bool
+}
+
+func (p *LookupPP) Naming() string { return "verif.lookuppp" }
+func (p *LookupPP) Bind(r *Run)    { p.run, p.done = r, map[string]bool{} }
+func (p *LookupPP) look(when, name string) {
+	if t, ok := p.Plan[name]; ok && p.When == when && !p.done[name] {
+		p.done[name] = true
+		p.run.Log.Add("lookup", t)
+		p.run.App.GetComponentByName(t)
+		p.run.Log.Add("lookup-end", t)
+	}
+}
+func (p *LookupPP) PostProcessAfterInstantiation(c any, name string) (bool, error) {
+	p.look("after-inst", name)
+	return true, nil
+}
+func (p *LookupPP) PostProcessProperties(props []*component_definition.Property, c any, name string) ([]*component_definition.Property, error) {
+	p.look("properties", name)
+	return nil, nil
+}
+func (p *LookupPP) PostProcessBeforeInitialization(c any, name string) (any, error) {
+	p.look("before", name)
+	return c, nil
+}
